@@ -137,6 +137,12 @@ def rules(ctx):
     required_vehicles_pairing(ctx)
     formation_getters(ctx)
     limit_combination(ctx)
+    from .C17 import getters as _getters
+    before = len(ctx.obligations)
+    _getters(ctx)
+    ctx.obligations[before:] = [o_ for o_ in ctx.obligations[before:] if o_.id.endswith(("getter.seats", "getter.capacity", "getter.passengers", "getter.seated"))]
+    for o_ in ctx.obligations[before:]:
+        o_.id = o_.id.replace("C07/R1.", "C07/R2.model.")
     from .C02 import growth_guards
     before = len(ctx.obligations)
     growth_guards(ctx)      # the local search serves a trip up to the limit that applies to it, not beyond and not less
